@@ -1,12 +1,79 @@
-GROUP = dict(crate='feather-build-rs', file='src/specialized_methods/mod.rs', harness_file='bridge.rs', cargo_target=['--bin', 'feather-build-rs'],
-             functions=[], trusted=[], tests=[
-    dict(name='flags_arities_bodies', props=['C15'], text='draft', bound='draft', timeout=600, tier='quick'),
-    dict(name='unflagged_synthetic_signatures', props=['C15'], text='draft', bound='draft', timeout=600, tier='quick'),
-    dict(name='flagged_bridge_signatures', props=['C15'], text='draft', bound='draft', timeout=600, tier='quick'),
-    dict(name='all_flags_short_signatures', props=['C15'], text='draft', bound='draft', timeout=600, tier='quick'),
-    dict(name='deep_and_interface_bounds', props=['C15'], text='draft', bound='draft', timeout=600, tier='quick'),
-    dict(name='hierarchy_and_name_source', props=['C15'], text='draft', bound='draft', timeout=600, tier='quick'),
-    dict(name='several_bridges_through_a_zip', props=['C15'], text='draft', bound='draft', timeout=600, tier='quick'),
-    dict(name='invocations_on_array_classes_count', props=['C15'], text='draft', bound='draft', timeout=600, tier='quick'),
-    dict(name='canary_must_fail', props=[], canary=True, text='must fail', bound=''),
-])
+"""Enumeration group `bridge`: bounded stand-in for C15 at the level of the whole pass (harness kx/enum/bridge.rs, report kx/enum/bridge_REPORT.md).
+
+Every case is a model (main jar, library jar, official -> intermediary set, intermediary -> named set); the harness writes the class files byte by
+byte and the mapping sets as Tiny v2 text, runs the real `add_specialized_methods_to_mappings` and compares the returned mapping set, entry by
+entry, with the one the statement of C15 demands.
+
+The jar every universe starts from: types a/B <- a/C <- a/D, a/D implements a/Y; l/M <- l/L (library jar) <- a/G <- a/P <- a/K, a/P implements a/J,
+a/K implements a/I, a/X unrelated; G, P, I, J, l/M declare the ordinary method m<descriptor of the bridge>, the one of P invokes exactly one method of
+a compatible signature (not synthetic: must not count).  The universes vary the methods of a/K (the bridge's class).
+The intermediary -> named set always holds entries no bridge concerns (commented class, field, method with comment and parameter, the delegate's key
+in a/P and a/X, the delegate's name with another descriptor in a/K): they must come back unchanged.
+"""
+
+_SKEL = ('fixed part of every case: 10 classes in the main jar, 2 in the library jar; a mapping set with unconcerned entries '
+         '(class comment, field, method with comment and parameter, the key of the delegate in two other classes, the name of the delegate with another descriptor)')
+
+GROUP = dict(
+    crate='feather-build-rs', file='src/specialized_methods/mod.rs', harness_file='bridge.rs', cargo_target=['--bin', 'feather-build-rs'],
+    functions=['src/specialized_methods/mod.rs::add_specialized_methods_to_mappings', 'GetSpecializedMethods::get_specialized_methods',
+               'MultiClassVisitorImpl::get_specialized_methods', 'get_specialized_methods::is_potential_bridge', 'get_specialized_methods::are_types_bridge_compatible',
+               'get_specialized_methods::get_higher_method', 'MultiClassVisitorImpl::visit_class', 'ClassVisitorImpl::visit_method', 'ClassVisitorImpl::finish_method',
+               'InheritanceIndex::store', 'InheritanceIndex::get_ancestors', 'InheritanceIndex::get_descendants', 'SpecializedMethods::remap',
+               'dukebox OpenedJar::read_classes_into / get_super_classes_provider (ParsedJar and zip archive)', 'quill Mappings::remapper_b', 'BRemapper::map_method_ref_obj',
+               'JarSuperProv::remap'],
+    trusted=['bridge harness (kx/enum/bridge.rs): own model of jar and mapping sets, own class file generator (JVMS 4.1, 4.4, 4.6, 4.7.3; version 52; bodies are aload_0, the '
+             'invocations, return), model-level oracle written from the statement of C15.  The mapping sets enter as Tiny v2 text through quill::tiny_v2::read; on every case the tree '
+             'read is converted back (public fields of quill::tree::mappings) and must equal the model, so a reader problem is reported as such.  '
+             'Readings fixed by the oracle where the statement is silent: a bridge the mappings do not name keeps its (intermediary) name and the delegate receives that; '
+             'when the mappings have no entry for the bridge\'s class nothing is added; official names are carried to intermediary ones by the official -> intermediary set '
+             'with the same through-inheritance rule; "bridge-compatible" = same type, or both class types and the bridge\'s type is java/lang/Object or a proper super type '
+             '(class or interface, any depth) of the delegate\'s type.  '
+             'Outside the universes: array types, parameter / return classes that the main jar does not contain, invokedynamic, methods marked synthetic by the Synthetic '
+             'attribute only, classes without a name in the second namespace, two bridges of one class with the same delegate (excluded by the quantifier), more than two parameters.'],
+    tests=[
+        dict(name='flags_arities_bodies', props=['C15'], tier='quick', timeout=600,
+             text='For every flag combination, arity pair, body and mapping situation the returned mappings are exactly the input plus, when and only when the method of a/K is a bridge '
+                  '(synthetic, exactly one distinct invoked method, flagged as bridge or inheritable with equal arity and compatible types), the entry of the delegate in a/K carrying the name '
+                  'the mappings give the bridge (own entry, entry of the super class, or its unchanged name); an existing entry of the delegate keeps comment and parameters; '
+                  'nothing changes when a/K has no entry.',
+             bound='32 flag combinations {synthetic, bridge, private, static, final} x arity of the bridge {0,1,2} (parameters java/lang/Object) x arity of the delegate {0,1,2} (parameters a/B) '
+                   'x 6 bodies (no Code; Code without invocation; one invocation; the same method twice; two methods; two methods of one name) x 8 mapping situations '
+                   '(a/K present: bridge named in a/K / in a/P / nowhere x delegate unnamed / named with comment and parameter; a/K absent: bridge named in a/P / nowhere) = 13824 cases '
+                   '(900 with a rename); ' + _SKEL),
+        dict(name='unflagged_synthetic_signatures', props=['C15'], tier='quick', timeout=600,
+             text='A synthetic, inheritable, unflagged method that invokes one method is a bridge exactly for the signature pairs of equal arity whose parameter and return types are '
+                  'position-wise compatible; then the delegate (same name as the bridge, as javac writes it) receives the name of the bridge under its own descriptor; otherwise nothing changes.',
+             bound='all 105 x 105 = 11025 pairs of descriptors with <= 2 parameters over {java/lang/Object, a/B, a/C (extends a/B), int} and return types over the same plus void '
+                   '(456 compatible pairs); ' + _SKEL),
+        dict(name='flagged_bridge_signatures', props=['C15'], tier='quick', timeout=600,
+             text='A synthetic method flagged as bridge that invokes one method is a bridge whatever the two signatures are; the delegate receives the name under its own (translated) descriptor.',
+             bound='the same 11025 descriptor pairs, flags synthetic + bridge (11025 renames); ' + _SKEL),
+        dict(name='all_flags_short_signatures', props=['C15'], tier='quick', timeout=600,
+             text='The same for every flag combination: a rename happens exactly for synthetic + bridge (any signature) and for synthetic without private / static / final with a compatible signature.',
+             bound='32 flag combinations x all 25 x 25 descriptor pairs with <= 1 parameter = 20000 cases (5064 renames); ' + _SKEL),
+        dict(name='deep_and_interface_bounds', props=['C15'], tier='quick', timeout=600,
+             text='Compatibility follows the class hierarchy of the jar over several levels and through interfaces (a type variable erased to its bound, covariant returns).',
+             bound='all 42 x 42 = 1764 pairs of descriptors (T)R with T over {java/lang/Object, a/B, a/C, a/D, a/Y, int}, R over the same plus void; a/D extends a/C extends a/B, a/D implements a/Y '
+                   '(210 compatible pairs); unflagged synthetic; ' + _SKEL),
+        dict(name='hierarchy_and_name_source', props=['C15'], tier='quick', timeout=600,
+             text='The name the delegate receives is the one the mappings give the bridge through inheritance: the entry of a/K, else the nearest on the super class chain a/P, a/G, l/L, l/M '
+                  '(that l/M is above l/L is known from the library jar only), else the one of a super interface; else the unchanged name.  The entry is placed in the bridge\'s class whatever class the '
+                  'invocation names (own class, super class by invokespecial, another class by invokestatic, an interface), under the delegate\'s intermediary name and descriptor as the '
+                  'official -> intermediary set gives them (also through inheritance, or not at all).',
+             bound='subsets of the six places {a/K, a/P, a/G, l/M, a/J, a/I} that name the bridge (63 of 64: both interfaces and no class is left out as undefined) x delegate entry absent / present, '
+                   'plus 31 subsets with a/K absent from the mappings = 157 mapping sets; x 4 official -> intermediary sets (empty; renaming everything; delegate declared at the super class of the '
+                   'class the invocation names; delegate not declared) x 4 invocations (invokevirtual a/K, invokespecial a/P, invokestatic a/X, invokeinterface a/I) x {flagged, unflagged compatible} '
+                   'x delegate named like the bridge or not = 10048 cases (8064 renames); ' + _SKEL),
+        dict(name='several_bridges_through_a_zip', props=['C15'], tier='quick', timeout=600,
+             text='With several bridges in one jar every delegate receives, in the class of its bridge, the name of its bridge; a flagged synthetic that invokes two methods next to them causes '
+                  'nothing; the same delegate bridged in a sub class gets an entry there too (or nothing when the sub class has no entry).  The jars are read from real zip archives.',
+             bound='a/K with any subset of {flagged bridge m(Object)V -> m(a/B)V, unflagged covariant g()Object -> g()a/C, flagged synthetic h invoking two methods} x a/K2 (extends a/K) without bridge / '
+                   'flagged bridge invoking a/K2.m(a/B)V / unflagged synthetic invoking a/K.m(a/B)V by invokespecial x interface a/I2 (extends a/I) with or without a flagged bridge = 48 jars; '
+                   'x 32 mapping sets (m(Object)V named in a/K / a/P / a/I / nowhere; a/K2 with or without entry; g()Object named or not; delegate m(a/B)V named or not) x 2 official -> intermediary sets '
+                   '(empty, renaming) = 3072 cases (2816 renames)'),
+        dict(name='invocations_on_array_classes_count', props=['C15'], tier='quick', timeout=600,
+             text='A synthetic method that invokes two distinct methods, one of them on an array class ([La/B;.clone()), causes no rename.',
+             bound='{flagged, unflagged compatible} x array invocation first / second x bridge named in a/K / a/P / nowhere x delegate unnamed / named = 24 cases'),
+        dict(name='canary_must_fail', props=[], canary=True, text='must fail', bound=''),
+    ])
